@@ -10,7 +10,7 @@ load_miros()
 import miros.hsm as hsm                       # noqa: E402
 from miros.event import signals, return_status, Event   # noqa: E402
 
-NSTATES = 12
+NSTATES = 20
 USER = ["A", "B", "C", "D", "E", "F"]
 for _n in USER:
     signals.append(_n)
@@ -28,14 +28,15 @@ class Table:
     """The chart data the state functions read."""
 
     def __init__(self, parent, init=None, react=None, style=None, act=None,
-                 none_state=None, budget=20000):
+                 none_state=None, none_mode="all", budget=20000):
         self.parent = parent
         self.n = len(parent)
         self.init = init or {}              # state -> init target state
         self.react = react or {}            # (state, signal number) -> ('H',)|('T',j)|('D',)
         self.style = style                  # per state bitmask 1=entry 2=exit 4=init explicitly HANDLED
         self.act = act or {}                # (state, signal number) -> [(action, arg), ...]
-        self.none_state = none_state        # that state's handler returns None for everything
+        self.none_state = none_state        # that state's handler returns None ...
+        self.none_mode = none_mode          # ... 'all': for every signal; 'user': for user signals only
         self.S = None                       # the family's function list
         self.log = []
         self.calls = 0
@@ -80,7 +81,7 @@ def _h(i, chart, e):
     t.calls += 1
     if t.calls > t.budget:
         raise BudgetExceeded("handler budget")
-    if t.none_state == i:
+    if t.none_state == i and (t.none_mode == "all" or e.signal > 10):
         t.log.append(("none", i, e.signal))
         return None
     sig = e.signal
